@@ -10,6 +10,14 @@ use crate::storage::value::Value;
 use std::sync::Arc;
 use std::time::{SystemTime, Duration};
 
+/// Group and consumer names are kept as Rust strings.  A name that is not valid UTF-8 is refused:
+/// a lossy conversion would turn distinct names (b"g\xff", b"g\xfe") into the same group or consumer.
+fn utf8_name(bytes: &[u8]) -> Option<String> {
+    std::str::from_utf8(bytes).ok().map(|s| s.to_string())
+}
+
+const INVALID_NAME: &str = "ERR group and consumer names must be valid UTF-8";
+
 /// Handle XINFO command
 pub fn handle_xinfo(storage: &Arc<StorageEngine>, db: usize, parts: &[RespFrame]) -> Result<RespFrame> {
     if parts.len() < 2 {
@@ -182,7 +190,10 @@ fn handle_xinfo_consumers(storage: &Arc<StorageEngine>, db: usize, parts: &[Resp
     };
     
     let group_name = match &parts[3] {
-        RespFrame::BulkString(Some(bytes)) => String::from_utf8_lossy(bytes).to_string(),
+        RespFrame::BulkString(Some(bytes)) => match utf8_name(bytes) {
+            Some(name) => name,
+            None => return Ok(RespFrame::error(INVALID_NAME)),
+        },
         _ => return Ok(RespFrame::error("ERR invalid group name format")),
     };
     
@@ -286,7 +297,10 @@ fn handle_xgroup_create(storage: &Arc<StorageEngine>, db: usize, parts: &[RespFr
     };
     
     let group_name = match &parts[3] {
-        RespFrame::BulkString(Some(bytes)) => String::from_utf8_lossy(bytes).to_string(),
+        RespFrame::BulkString(Some(bytes)) => match utf8_name(bytes) {
+            Some(name) => name,
+            None => return Ok(RespFrame::error(INVALID_NAME)),
+        },
         _ => return Ok(RespFrame::error("ERR invalid group name format")),
     };
     
@@ -354,7 +368,10 @@ fn handle_xgroup_destroy(storage: &Arc<StorageEngine>, db: usize, parts: &[RespF
     };
     
     let group_name = match &parts[3] {
-        RespFrame::BulkString(Some(bytes)) => String::from_utf8_lossy(bytes),
+        RespFrame::BulkString(Some(bytes)) => match utf8_name(bytes) {
+            Some(name) => name,
+            None => return Ok(RespFrame::error(INVALID_NAME)),
+        },
         _ => return Ok(RespFrame::error("ERR invalid group name format")),
     };
     
@@ -382,12 +399,18 @@ fn handle_xgroup_createconsumer(storage: &Arc<StorageEngine>, db: usize, parts: 
     };
     
     let group_name = match &parts[3] {
-        RespFrame::BulkString(Some(bytes)) => String::from_utf8_lossy(bytes).to_string(),
+        RespFrame::BulkString(Some(bytes)) => match utf8_name(bytes) {
+            Some(name) => name,
+            None => return Ok(RespFrame::error(INVALID_NAME)),
+        },
         _ => return Ok(RespFrame::error("ERR invalid group name format")),
     };
     
     let consumer_name = match &parts[4] {
-        RespFrame::BulkString(Some(bytes)) => String::from_utf8_lossy(bytes).to_string(),
+        RespFrame::BulkString(Some(bytes)) => match utf8_name(bytes) {
+            Some(name) => name,
+            None => return Ok(RespFrame::error(INVALID_NAME)),
+        },
         _ => return Ok(RespFrame::error("ERR invalid consumer name format")),
     };
     
@@ -421,12 +444,18 @@ fn handle_xgroup_delconsumer(storage: &Arc<StorageEngine>, db: usize, parts: &[R
     };
     
     let group_name = match &parts[3] {
-        RespFrame::BulkString(Some(bytes)) => String::from_utf8_lossy(bytes).to_string(),
+        RespFrame::BulkString(Some(bytes)) => match utf8_name(bytes) {
+            Some(name) => name,
+            None => return Ok(RespFrame::error(INVALID_NAME)),
+        },
         _ => return Ok(RespFrame::error("ERR invalid group name format")),
     };
     
     let consumer_name = match &parts[4] {
-        RespFrame::BulkString(Some(bytes)) => String::from_utf8_lossy(bytes),
+        RespFrame::BulkString(Some(bytes)) => match utf8_name(bytes) {
+            Some(name) => name,
+            None => return Ok(RespFrame::error(INVALID_NAME)),
+        },
         _ => return Ok(RespFrame::error("ERR invalid consumer name format")),
     };
     
@@ -460,7 +489,10 @@ fn handle_xgroup_setid(storage: &Arc<StorageEngine>, db: usize, parts: &[RespFra
     };
     
     let group_name = match &parts[3] {
-        RespFrame::BulkString(Some(bytes)) => String::from_utf8_lossy(bytes).to_string(),
+        RespFrame::BulkString(Some(bytes)) => match utf8_name(bytes) {
+            Some(name) => name,
+            None => return Ok(RespFrame::error(INVALID_NAME)),
+        },
         _ => return Ok(RespFrame::error("ERR invalid group name format")),
     };
     
@@ -550,7 +582,10 @@ pub fn handle_xreadgroup(storage: &Arc<StorageEngine>, db: usize, parts: &[RespF
     // Parse group name
     if i < parts.len() {
         group_name = match &parts[i] {
-            RespFrame::BulkString(Some(bytes)) => String::from_utf8_lossy(bytes).to_string(),
+            RespFrame::BulkString(Some(bytes)) => match utf8_name(bytes) {
+                Some(name) => name,
+                None => return Ok(RespFrame::error(INVALID_NAME)),
+            },
             _ => return Ok(RespFrame::error("ERR invalid group name")),
         };
         i += 1;
@@ -559,7 +594,10 @@ pub fn handle_xreadgroup(storage: &Arc<StorageEngine>, db: usize, parts: &[RespF
     // Parse consumer name
     if i < parts.len() {
         consumer_name = match &parts[i] {
-            RespFrame::BulkString(Some(bytes)) => String::from_utf8_lossy(bytes).to_string(),
+            RespFrame::BulkString(Some(bytes)) => match utf8_name(bytes) {
+                Some(name) => name,
+                None => return Ok(RespFrame::error(INVALID_NAME)),
+            },
             _ => return Ok(RespFrame::error("ERR invalid consumer name")),
         };
         i += 1;
@@ -730,7 +768,10 @@ pub fn handle_xack(storage: &Arc<StorageEngine>, db: usize, parts: &[RespFrame])
     };
     
     let group_name = match &parts[2] {
-        RespFrame::BulkString(Some(bytes)) => String::from_utf8_lossy(bytes).to_string(),
+        RespFrame::BulkString(Some(bytes)) => match utf8_name(bytes) {
+            Some(name) => name,
+            None => return Ok(RespFrame::error(INVALID_NAME)),
+        },
         _ => return Ok(RespFrame::error("ERR invalid group name format")),
     };
     
@@ -775,7 +816,10 @@ pub fn handle_xpending(storage: &Arc<StorageEngine>, db: usize, parts: &[RespFra
     };
     
     let group_name = match &parts[2] {
-        RespFrame::BulkString(Some(bytes)) => String::from_utf8_lossy(bytes).to_string(),
+        RespFrame::BulkString(Some(bytes)) => match utf8_name(bytes) {
+            Some(name) => name,
+            None => return Ok(RespFrame::error(INVALID_NAME)),
+        },
         _ => return Ok(RespFrame::error("ERR invalid group name format")),
     };
     
@@ -857,7 +901,10 @@ pub fn handle_xpending(storage: &Arc<StorageEngine>, db: usize, parts: &[RespFra
         
         let consumer = if parts.len() > 6 {
             match &parts[6] {
-                RespFrame::BulkString(Some(bytes)) => Some(String::from_utf8_lossy(bytes).to_string()),
+                RespFrame::BulkString(Some(bytes)) => match utf8_name(bytes) {
+                    Some(name) => Some(name),
+                    None => return Ok(RespFrame::error(INVALID_NAME)),
+                },
                 _ => None,
             }
         } else {
@@ -909,12 +956,18 @@ pub fn handle_xclaim(storage: &Arc<StorageEngine>, db: usize, parts: &[RespFrame
     };
     
     let group_name = match &parts[2] {
-        RespFrame::BulkString(Some(bytes)) => String::from_utf8_lossy(bytes).to_string(),
+        RespFrame::BulkString(Some(bytes)) => match utf8_name(bytes) {
+            Some(name) => name,
+            None => return Ok(RespFrame::error(INVALID_NAME)),
+        },
         _ => return Ok(RespFrame::error("ERR invalid group name")),
     };
     
     let consumer_name = match &parts[3] {
-        RespFrame::BulkString(Some(bytes)) => String::from_utf8_lossy(bytes).to_string(),
+        RespFrame::BulkString(Some(bytes)) => match utf8_name(bytes) {
+            Some(name) => name,
+            None => return Ok(RespFrame::error(INVALID_NAME)),
+        },
         _ => return Ok(RespFrame::error("ERR invalid consumer name")),
     };
     
@@ -1022,12 +1075,18 @@ pub fn handle_xautoclaim(storage: &Arc<StorageEngine>, db: usize, parts: &[RespF
     };
     
     let group_name = match &parts[2] {
-        RespFrame::BulkString(Some(bytes)) => String::from_utf8_lossy(bytes).to_string(),
+        RespFrame::BulkString(Some(bytes)) => match utf8_name(bytes) {
+            Some(name) => name,
+            None => return Ok(RespFrame::error(INVALID_NAME)),
+        },
         _ => return Ok(RespFrame::error("ERR invalid group name")),
     };
     
     let consumer_name = match &parts[3] {
-        RespFrame::BulkString(Some(bytes)) => String::from_utf8_lossy(bytes).to_string(),
+        RespFrame::BulkString(Some(bytes)) => match utf8_name(bytes) {
+            Some(name) => name,
+            None => return Ok(RespFrame::error(INVALID_NAME)),
+        },
         _ => return Ok(RespFrame::error("ERR invalid consumer name")),
     };
     
